@@ -135,7 +135,12 @@ def _atoms(ctx: Ctx, fi: FuncInfo, test: ast.AST, pol: bool, env=None) -> list[C
                     c.value_text = (c.value_text + " |disj").strip()
                     out.append(c)
         return out
-    return [Constraint(norm(test), "truthy" if pol else "falsy", None, test)]
+    return [Constraint(_t(fi, test), "truthy" if pol else "falsy", None, test)]
+
+
+def _t(fi: FuncInfo, e: ast.AST):
+    from .pattern import S, scope_of
+    return S(norm(e), scope_of(fi), e)
 
 
 def _cmp(ctx, fi, left, op, right, pol, node, env) -> list[Constraint]:
@@ -147,8 +152,8 @@ def _cmp(ctx, fi, left, op, right, pol, node, env) -> list[Constraint]:
     lv, rv = _val(ctx, fi, left, env), _val(ctx, fi, right, env)
     if lv is not UNKNOWN and rv is UNKNOWN and o in FLIP:
         # constant on the left: 0 < x  ->  x > 0
-        return [Constraint(norm(right), FLIP[o], lv, node, norm(left))]
-    return [Constraint(norm(left), o, rv, node, norm(right))]
+        return [Constraint(_t(fi, right), FLIP[o], lv, node, _t(fi, left))]
+    return [Constraint(_t(fi, left), o, rv, node, _t(fi, right))]
 
 
 class ConsList(list):
